@@ -628,6 +628,86 @@ pub fn run(r: &Report) {
         );
     }
 
+    // (f) pairs of extreme field values, and containers with more elements than an 8- / 16-bit counter holds
+    {
+        let sub = "f-extreme-fields-long-containers";
+        let firsts: [u64; 15] = [0, 1, 0x7fff_ffff, 0x8000_0000, 0xffff_ffff, 0x1_0000_0000, 1 << 53, 0x7fff_ffff_ffff_ffff, 0x8000_0000_0000_0000, u64::MAX - 5, u64::MAX - 4, u64::MAX - 3, u64::MAX - 2, u64::MAX - 1, u64::MAX];
+        let seconds: [u64; 12] = [0, 999_999_999, 1_000_000_000, 1_999_999_999, 2_000_000_000, 2_999_999_999, 3_000_000_000, 4_000_000_000, 0xffff_ffff, 0x1_0000_0000, 0x7fff_ffff_ffff_ffff, u64::MAX];
+        let mut inputs: Vec<Vec<u8>> = Vec::new();
+        for a in firsts {
+            for b in seconds {
+                for (ma, mb) in [(0u8, 0u8), (1, 0), (0, 1)] {
+                    let ha = refmodel::preferred_head(ma, a);
+                    let hb = refmodel::preferred_head(mb, b);
+                    for extra in 0..=2usize {
+                        // [a, b], [a, b, 0], [a, b, 0, 0] - definite and indefinite
+                        let mut body = ha.clone();
+                        body.extend_from_slice(&hb);
+                        body.extend(std::iter::repeat(0u8).take(extra));
+                        let mut d = vec![0x82 + extra as u8];
+                        d.extend_from_slice(&body);
+                        inputs.push(d);
+                        let mut i = vec![0x9f];
+                        i.extend_from_slice(&body);
+                        i.push(0xff);
+                        inputs.push(i);
+                    }
+                }
+            }
+        }
+        let pairs = inputs.len();
+        for n in [255usize, 256, 257, 65535, 65536, 65537] {
+            let zeros: Vec<u8> = vec![0u8; n];
+            let mut d = refmodel::preferred_head(4, n as u64);
+            d.extend_from_slice(&zeros);
+            inputs.push(d);
+            let mut i = vec![0x9f];
+            i.extend_from_slice(&zeros);
+            i.push(0xff);
+            inputs.push(i.clone());
+            i.pop();
+            inputs.push(i); // not closed
+            let mut m = refmodel::preferred_head(5, n as u64);
+            m.extend(std::iter::repeat([0x00u8, 0x00]).take(n).flatten());
+            inputs.push(m);
+            let mut m = vec![0xbf];
+            m.extend((0..n).flat_map(|k| [0x18u8, (k % 256) as u8, 0x00]));
+            m.push(0xff);
+            inputs.push(m);
+            for (open, chunk) in [(0x5fu8, 0x41u8), (0x7f, 0x61)] {
+                let mut c = vec![open];
+                c.extend(std::iter::repeat([chunk, b'x']).take(n).flatten());
+                c.push(0xff);
+                inputs.push(c);
+            }
+            let mut t: Vec<u8> = vec![0xc1; n];
+            t.push(0x00);
+            inputs.push(t);
+        }
+        r.space(sub, true, &format!("{} inputs [a, b(, 0(, 0))] (definite and indefinite) over 15 x 12 extreme values of a and b in both signs, and {} containers / chunked strings / tag chains of n in {{255, 256, 257, 65535, 65536, 65537}} elements; x all entry points at position 0", pairs, inputs.len() - pairs), 1);
+        mcx::par::run_shards(
+            256usize.min(inputs.len()),
+            |s| {
+                let mut t = Tally { calls: 0, ok: 0, max_alloc: 0, max_steps: 0 };
+                let mut i = s;
+                let mut n = 0u64;
+                while i < inputs.len() {
+                    n += 1;
+                    for op in &ops {
+                        monitored(r, sub, op, &inputs[i], 0, &mut t);
+                    }
+                    i += 256usize.min(inputs.len());
+                }
+                r.add(sub, t.calls, t.ok);
+                r.add_states(sub, n, t.calls);
+                r.outcome(sub, "Ok", t.ok);
+                r.outcome(sub, "Err", t.calls - t.ok);
+            },
+            crate::hang_handler(r.property.clone()),
+        );
+        r.sample(sub, json!({"input_hex": "821bfffffffffffffffe1a77359400", "op": "Duration", "note": "secs = u64::MAX - 1, nanos = 2e9: a carry of two seconds"}));
+    }
+
     // (d) deviations of well-formed trees through every entry point
     {
         let sub = "d-mutated-trees";
